@@ -163,6 +163,35 @@ Theorem C15_kick_without_force_refuted :
 Proof. exact kick_without_force_refuted. Qed.
 Print Assumptions C15_kick_without_force_refuted.
 
+(** ** Nothing but upgrade and the connection's own deferred unmap writes the registry *)
+
+(** The only functions that assign to or delete from the endpoints map are
+    upgrade and unmap, and unmap is called in one place: deferred, in
+    ServeBackName.  The front path (Server.dial, the proxy) reads only. *)
+Theorem C15_registry_writers :
+  (gen_registry_writers = ["Server.unmap"; "Server.upgrade"] /\
+   gen_unmap_callers = [("Server.ServeBackName", "deferred")])%string.
+Proof. exact gen_registry_writers_ok. Qed.
+Print Assumptions C15_registry_writers.
+
+(** The seeded change C15-g, kept as a counter-model: the front path unmaps a
+    live endpoint whose dial answered with an error.  The resulting state --
+    the name resolves to nothing while the most recently connected
+    connection under it is serving, with its connect notification and no
+    disconnect -- is not a state of the registry model. *)
+Theorem C15_front_unmap_refuted :
+  match exec init [AUpgrade 1 7; AConnect 1 5] with
+  | Some s =>
+      lookup_name s 7 = Some 1 /\
+      let s' := front_unmap s 1 in
+      lookup_name s' 7 = None /\ newest s' 7 = Some 1 /\
+      (exists th, get 1 (threads s') = Some th /\ th_pc th = P2 /\ live (th_pc th) = true) /\
+      proj 1 (log s') = [Connect 7 5 1] /\ ~ reachable s'
+  | None => False
+  end.
+Proof. exact front_unmap_refuted. Qed.
+Print Assumptions C15_front_unmap_refuted.
+
 (** * Non-vacuity *)
 
 (** Three generations under one name; the oldest ends last.  The name always
